@@ -739,6 +739,73 @@ def r13_7(ctx, counts: dict[str, int]) -> RuleResult:
     return res
 
 
+def r13_8(ctx, counts: dict[str, int]) -> RuleResult:
+    """add() keeps the interval list merged"""
+    model = ctx.model
+    res = RuleResult(
+        'R13.8', 'ADD-KEEPS-RANGES-MERGED',
+        'Equality of UnicodeSubset compares the interval lists, so it is extensional only if the '
+        'list is canonical: sorted, disjoint, touching ranges merged, single code points stored as '
+        'int (the form discard() and the generated tables keep — R13.1). In UnicodeSubset.add: '
+        '(a) no range is stored whose end is the start bound read from the following item '
+        '(`code_points[k] = …, <bound of code_points[k + 1]>` makes item k touch item k+1 by '
+        'construction); (b) the raw `value` argument is not inserted/appended as it came (a range '
+        'of length one must become an int). [(0,5),(10,15)] + (3,12) gives [(0,10),(10,15)]; '
+        '[(1,4)] discard 2, add 2 gives [(1,3),3], which is not equal to [(1,4)].')
+    cls = model.find_class('UnicodeSubset')
+    f = cls.methods.get('add')
+    if f is None:
+        raise AnalysisError('UnicodeSubset.add vanished')
+    param = f.params()[1]
+    # names bound to the start of the following item
+    next_bounds: set[str] = set()
+    nexts: set[str] = set()
+    for st in walk_local(f.node):
+        if isinstance(st, ast.Assign) and len(st.targets) == 1 and isinstance(st.targets[0], ast.Name):
+            v = st.value
+            if isinstance(v, ast.Subscript) and isinstance(v.slice, ast.BinOp) \
+                    and isinstance(v.slice.op, ast.Add):
+                nexts.add(st.targets[0].id)
+    for st in walk_local(f.node):
+        if isinstance(st, ast.Assign) and len(st.targets) == 1 and isinstance(st.targets[0], ast.Name):
+            if any(isinstance(x, ast.Name) and x.id in nexts for x in ast.walk(st.value)):
+                next_bounds.add(st.targets[0].id)
+    n = 0
+    for st in walk_local(f.node):
+        if isinstance(st, ast.Assign) and len(st.targets) == 1 \
+                and isinstance(st.targets[0], ast.Subscript) and isinstance(st.value, ast.Tuple) \
+                and len(st.value.elts) == 2:
+            n += 1
+            touching = isinstance(st.value.elts[1], ast.Name) and st.value.elts[1].id in next_bounds
+            res.instances.append(f'{f.key}: `{stmt_text(st)[:60]}` ends at the next item\'s '
+                                 f'start={touching}')
+            if touching:
+                res.fail(finding('R13.8', f, st, 'range stored up to the next item',
+                                 f'`{stmt_text(st)[:60]}` stores a range that ends exactly where '
+                                 f'the following item begins and leaves both in the list: the '
+                                 f'representation is not merged, so equal sets compare unequal '
+                                 f'([(0,5),(10,15)] + (3,12) = [(0,10),(10,15)])'))
+            else:
+                res.ok()
+        if isinstance(st, ast.Expr) and isinstance(st.value, ast.Call) \
+                and isinstance(st.value.func, ast.Attribute) \
+                and st.value.func.attr in ('insert', 'append') \
+                and any(isinstance(a, ast.Name) and a.id == param for a in st.value.args):
+            n += 1
+            res.instances.append(f'{f.key}: `{stmt_text(st)[:50]}` stores the raw argument')
+            res.fail(finding('R13.8', f, st, 'raw argument stored',
+                             f'`{stmt_text(st)[:50]}` stores the argument as it came: the range '
+                             f'(22, 23) stays a tuple although the canonical form of a single '
+                             f'code point is the int 22 (the set then differs from an equal one '
+                             f'built another way)'))
+    if n == 0:
+        res.instances.append(f'{f.key}: no direct store of a 2-tuple into the interval list '
+                             f'(ranges are rebuilt after merging)')
+        res.ok()
+    counts['add_stores'] = n
+    return res
+
+
 SHARED_TABLE_CALLS = {'unicode_category', 'unicode_block', 'unicode_subset'}
 CACHING_DECORATORS = {'lazy_subset', 'lru_cache', 'cache', 'cached_property'}
 
@@ -869,7 +936,7 @@ def r13_4(ctx, counts: dict[str, int]) -> RuleResult:
 def run(ctx) -> dict:
     counts: dict[str, int] = {}
     results = [r13_1(ctx, counts), r13_2(ctx, counts), r13_3(ctx, counts), r13_4(ctx, counts),
-               r13_6(ctx, counts), r13_7(ctx, counts)]
+               r13_6(ctx, counts), r13_7(ctx, counts), r13_8(ctx, counts)]
     # the run-length builders of the category tables (fallback for Unicode versions without a
     # generated table, and the UnicodeData.txt loader) treat major and minor categories with
     # cloned blocks: the clones must be consistent
